@@ -184,6 +184,9 @@ import PsVerif
 #print axioms PsVerif.RMat.scale_ofFn
 #print axioms PsVerif.schur_scale
 #print axioms PsVerif.scale_invariant
+#print axioms PsVerif.strict_ranking_unique
+#print axioms PsVerif.ranking_relabel_equivariant
+#print axioms PsVerif.run_without_ties_is_strict
 -- C19
 #print axioms PsVerif.sspor_ctor_spec
 #print axioms PsVerif.sspor_set_invalid
